@@ -1958,7 +1958,11 @@ impl<'a, E: quiver_core::effects::Effect> Compiler<'a, E> {
         // branch alive. (If the value can be nil the pattern matches that nil value, so it stays a
         // real success.)
         let final_type = if return_ok {
-            if self.is_nil(result_type) && !self.contains_nil(value_type) {
+            if self.is_never(matched_type) {
+                // No value of the scrutinee's type passes the pattern: the nil in `result_type`
+                // is the failure, not a matched nil, whatever the scrutinee's type contains.
+                self.program.register_type(Type::nil())
+            } else if self.is_nil(result_type) && !self.contains_nil(value_type) {
                 result_type
             } else if self.contains_nil(result_type) {
                 let ok_type_id = self.program.register_type(Type::ok());
